@@ -185,3 +185,5 @@ func opRed(d, v, v2 int, denom, amt string) world.Op {
 func opBlock(units int) world.Op { return world.Op{K: world.KBlock, Dt: int64(time.Duration(units) * U)} }
 func opSlash(v int, f string) world.Op { return world.Op{K: world.KSlash, V: v, F: f} }
 func opReward(denom, amt string) world.Op { return world.Op{K: world.KReward, Denom: denom, Amt: amt} }
+
+func sortStrings(s []string) { sort.Strings(s) }
